@@ -11,6 +11,12 @@ import (
 	"os"
 	"time"
 
+	"google.golang.org/grpc"
+	"google.golang.org/grpc/codes"
+	"google.golang.org/grpc/status"
+
+	"github.com/oxia-db/oxia/common/rpc"
+	"github.com/oxia-db/oxia/oxia"
 	"github.com/oxia-db/oxia/proto"
 	"github.com/oxia-db/oxia/server"
 	"github.com/oxia-db/oxia/server/kv"
@@ -132,6 +138,153 @@ func body(writers int, reconnect bool) func(s *vsched.Sched) {
 			}
 		}
 		s.Data = fmt.Sprint(offsets(all))
+		_ = lc.Close()
+	}
+}
+
+// ---- the client library's notification manager (oxia/notifications.go) over the real leader controller
+
+// cliStream is the client end of one GetNotifications call: what the leader sends arrives in ch until the
+// connection is lost (cut closed by the harness); whatever the leader sends after that is lost with it.
+type cliStream struct {
+	grpc.ClientStream
+	ctx  context.Context
+	cnl  context.CancelFunc
+	ch   chan *proto.NotificationBatch
+	cut  chan struct{}
+	lost bool
+	req  *proto.NotificationsRequest
+}
+
+func (c *cliStream) OnNext(b *proto.NotificationBatch) error {
+	if c.lost {
+		return nil
+	}
+	vsched.Send(c.ch)(b)
+	return nil
+}
+func (c *cliStream) OnComplete(error) {}
+func (c *cliStream) Recv() (*proto.NotificationBatch, error) {
+	r := vsched.Select(false, vsched.RecvCase(c.ch), vsched.RecvCase(c.cut), vsched.RecvCase(c.ctx.Done()))
+	switch r.I {
+	case 0:
+		return r.Val.(*proto.NotificationBatch), nil
+	case 1:
+		return nil, status.Error(codes.Unavailable, "transport is closing")
+	}
+	return nil, status.Error(codes.Canceled, "context canceled")
+}
+func (c *cliStream) drop() {
+	c.lost = true
+	vsched.Close(c.cut)
+	c.cnl()
+}
+
+type cliRPC struct {
+	proto.OxiaClientClient
+	p *cliPool
+}
+
+func (r cliRPC) GetNotifications(ctx context.Context, in *proto.NotificationsRequest, _ ...grpc.CallOption) (proto.OxiaClient_GetNotificationsClient, error) {
+	st := &cliStream{ch: make(chan *proto.NotificationBatch, 64), cut: make(chan struct{}), req: in}
+	st.ctx, st.cnl = context.WithCancel(ctx)
+	r.p.streams = append(r.p.streams, st)
+	r.p.lc.GetNotifications(st.ctx, in, st)
+	return st, nil
+}
+
+// cliPool: the leader is reached at once, or - while gate is set - only once the harness opens it.
+type cliPool struct {
+	rpc.ClientPool
+	lc      server.LeaderController
+	streams []*cliStream
+	gate    chan struct{}
+}
+
+func (p *cliPool) GetClientRpc(string) (proto.OxiaClientClient, error) {
+	if p.gate != nil {
+		vsched.Select(false, vsched.RecvCase(p.gate))
+	}
+	return cliRPC{p: p}, nil
+}
+func (p *cliPool) Close() error { return nil }
+func (p *cliPool) Clear(string) {}
+
+type oneShard struct{}
+
+func (oneShard) Close() error        { return nil }
+func (oneShard) Get(string) int64    { return 1 }
+func (oneShard) GetAll() []int64     { return []int64{1} }
+func (oneShard) Leader(int64) string { return "n1" }
+
+// clientReconnectBody: a client subscribes to a shard (preWrites committed requests before it does), its
+// connection is lost before it has received anything, two writes are committed while it is away, and it
+// reconnects once the leader is reachable again. It resumes from the last offset it saw (the position it was
+// given when it subscribed): the two writes must reach the application, once each.
+func clientReconnectBody(preWrites int) func(s *vsched.Sched) {
+	return func(s *vsched.Sched) {
+		s.Explore(false)
+		env := oxc.NewEnv(s)
+		net := oxc.NewNet()
+		kvf := oxc.NewObsFactory(env.Dir)
+		lc, err := server.NewLeaderController(server.Config{NotificationsRetentionTime: time.Hour}, "ns", 1, net, env.WalFactory("n1", 64*1024, true), kvf)
+		if err == nil {
+			_, err = lc.NewTerm(&proto.NewTermRequest{Namespace: "ns", Shard: 1, Term: 1, Options: &proto.NewTermOptions{EnableNotifications: true}})
+		}
+		if err == nil {
+			_, err = lc.BecomeLeader(context.Background(), &proto.BecomeLeaderRequest{Namespace: "ns", Shard: 1, Term: 1, ReplicationFactor: 1, FollowerMaps: map[string]*proto.EntryId{}})
+		}
+		for i := 0; err == nil && i < preWrites; i++ {
+			_, err = lc.WriteBlock(context.Background(), &proto.WriteRequest{Shard: oxh.I64(1), Puts: []*proto.PutRequest{{Key: fmt.Sprintf("pre%d", i), Value: []byte("x")}}})
+		}
+		if err != nil {
+			s.Fail("harness-setup", err.Error())
+			return
+		}
+		pool := &cliPool{lc: lc}
+		ctx, cancel := context.WithCancel(context.Background())
+		nm, err := oxia.VerifC17NewNotifications(ctx, pool, oneShard{})
+		if err != nil {
+			s.Fail("harness-setup", "client notifications: "+err.Error())
+			return
+		}
+		s.Settle()
+		s.Explore(true)
+		pool.gate = make(chan struct{})
+		pool.streams[0].drop()
+		var keys []string
+		for i := 0; i < 2; i++ {
+			k := fmt.Sprintf("k%d", i)
+			if _, err := lc.WriteBlock(context.Background(), &proto.WriteRequest{Shard: oxh.I64(1), Puts: []*proto.PutRequest{{Key: k, Value: []byte("v")}}}); err != nil {
+				s.Fail("harness-setup", err.Error())
+				return
+			}
+			keys = append(keys, k)
+		}
+		s.Settle()
+		s.Sleep(5 * time.Second) // virtual time: the client's retry timer fires, it dials and waits for the leader
+		s.Settle()
+		vsched.Close(pool.gate)
+		s.Settle()
+		s.Explore(false)
+		var got []string
+		for {
+			r := vsched.Select(true, vsched.RecvCase(nm.Ch()))
+			if r.I != 0 || !r.Ok {
+				break
+			}
+			got = append(got, r.Val.(*oxia.Notification).Key)
+		}
+		start := "none"
+		if n := len(pool.streams); n > 1 && pool.streams[n-1].req.StartOffsetExclusive != nil {
+			start = fmt.Sprint(*pool.streams[n-1].req.StartOffsetExclusive)
+		}
+		if fmt.Sprint(got) != fmt.Sprint(keys) {
+			s.Fail("client-lost-notifications-across-reconnect", fmt.Sprintf("%d request(s) committed before the client subscribed; its connection was lost, %v were written, it reconnected (%d connection(s), resuming after offset %s): the application received %v", preWrites, keys, len(pool.streams), start, got))
+		}
+		s.Data = fmt.Sprintf("got=%v connections=%d resume=%s", got, len(pool.streams), start)
+		cancel()
+		s.Settle()
 		_ = lc.Close()
 	}
 }
@@ -385,6 +538,8 @@ func scenarios(tier string) []sched.Scenario {
 		{Name: "2writers-reconnect", Cfg: cfg, MaxDev: d, Body: body(2, true)},
 		{Name: "fresh-subscriber-vs-writes-in-flight", Cfg: cfg, MaxDev: d, Body: freshSubscriberBody(2)},
 		{Name: "offset-without-batch", Cfg: cfg, MaxDev: d, Body: gapBody()},
+		{Name: "client-reconnects-after-writes", Cfg: cfg, MaxDev: 1, Body: clientReconnectBody(1)},
+		{Name: "client-reconnects-after-writes-new-shard", Cfg: cfg, MaxDev: 1, Body: clientReconnectBody(0)},
 		{Name: "trim-round-vs-commit", Cfg: cfg, MaxDev: 3, Body: trimBody(), HorizonKey: "subscriber-spins-without-receiving"},
 	}
 	if tier == "thorough" {
